@@ -39,7 +39,9 @@ def impl(c):
         ok2, s2 = alg2.play()
         if ok2:
             fin = common.div_to_list(G, alg2.divisor); rep = common.div_to_list(G, CFLaplacian(d.graph).apply(d, s2))
-            hist.append(["ok", fin, rep]); break
+            hist.append(["ok", fin, rep])
+            if len(hist) >= 3 or rng.random() < 0.4: break
+            alg2.borrowing_move(names[rng.randrange(n)]); continue        # a hand-made move after a success, then play() again
         hist.append(["fail", s2 is None])
     out["session"] = hist; out["pure2"] = before == (common.div_to_list(G, d), d.get_total_degree())
     return out
